@@ -53,7 +53,8 @@ Return(s, c, r) ==
   LET k == s.calls[c] IN
   [calls |-> [s.calls EXCEPT ![c].st = "ret", ![c].res = r,
                             ![c].z = IF k.st \in {"s1", "s2", "be"} /\ k.plan.late = k.st THEN k.st ELSE "none"],
-   syncs |-> s.syncs \ {k.topic, Topic2(k.topic)},
+   \* Sign gives up its second topic only when the second synchronisation returns: a late one keeps it until then
+   syncs |-> s.syncs \ ({k.topic} \cup (IF k.kind = "sg" /\ k.st = "s2" /\ k.plan.late = "s2" THEN {} ELSE {Topic2(k.topic)})),
    rbcs  |-> s.rbcs \ {k.topic},
    cls   |-> s.cls \ {k.topic},
    dkg   |-> IF k.kind = "kg" THEN FALSE ELSE s.dkg,
@@ -91,7 +92,12 @@ StepEff(c) ==
 CancelEff(c) == Return(St, c, "ctx")
 
 \* a stage that ignored the context completes after its call has returned: nothing may be registered any more
-LateEff(c) == [calls |-> [calls EXCEPT ![c].z = "none"], syncs |-> syncs, rbcs |-> rbcs, cls |-> cls, dkg |-> dkg, sig |-> "none"]
+\* (Sign's late second synchronisation still runs its continuation: the back end is started with the cancelled context and
+\* the second topic is given up)
+LateEff(c) ==
+  LET sg2 == calls[c].kind = "sg" /\ calls[c].z = "s2" IN
+  [calls |-> [calls EXCEPT ![c].z = "none"], syncs |-> IF sg2 THEN syncs \ {Topic2(calls[c].topic)} ELSE syncs,
+   rbcs |-> rbcs, cls |-> cls, dkg |-> dkg, sig |-> IF sg2 THEN "be" ELSE "none"]
 
 Apply(e) == /\ calls' = e.calls /\ syncs' = e.syncs /\ rbcs' = e.rbcs /\ cls' = e.cls /\ dkg' = e.dkg
 
@@ -125,7 +131,7 @@ DoCancel(c) ==
 
 DoLate(c) ==
   /\ calls[c].st = "ret" /\ calls[c].z # "none"
-  /\ LET e == LateEff(c) IN Apply(e) /\ Op([e |-> "late", c |-> c, label |-> calls[c].z, expect |-> "none"])
+  /\ LET e == LateEff(c) IN Apply(e) /\ Op([e |-> "late", c |-> c, label |-> calls[c].z, expect |-> e.sig])
 
 DoInject(m) ==
   /\ \E c \in Calls : calls[c].st # "new"
@@ -144,7 +150,7 @@ Terminal == nops = MaxOps
 Quiet == \A c \in Calls : ~Live(c) /\ calls[c].z = "none"
 NoResidue == Quiet => (syncs = {} /\ rbcs = {} /\ cls = {} /\ ~dkg)
 \* entries exist only for live sessions
-EntriesOwned == /\ \A t \in syncs : OwnerOf(t) # {}
+EntriesOwned == /\ \A t \in syncs : OwnerOf(t) # {} \/ \E c \in Calls : calls[c].z = "s2" /\ Topic2(calls[c].topic) = t
                 /\ \A t \in rbcs \cup cls : \E c \in Calls : Live(c) /\ calls[c].topic = t
                 /\ dkg = (\E c \in Calls : Live(c) /\ calls[c].kind = "kg")
 OneSessionPerTopic == \A c, d \in Calls : (Live(c) /\ Live(d) /\ c # d) => calls[c].topic # calls[d].topic
